@@ -1,13 +1,15 @@
 import RactorModel.Model.Remote
 import RactorModel.Model.Link
 import RactorModel.Model.Advert
+import RactorModel.Model.Fields
 import Driver.Common
 
 /-! Driver for the `Remote` model (C20). Ops as written by `harness/hcluster/src/bin/c20.rs`.
 
 E-PURE on `RemoteActorState`:
   `proxy` · `call <port> <payload>` · `cast <payload>` · `reply <tag> <data>` ·
-  `abandon <port>` · `killsession`
+  `abandon <port>` · `killsession` · (wave 2) `fcast <variant> <args> <meta|->` ·
+  `fcall <variant> <args> <meta|-> <timeout ms|->` (see `fieldsStep`)
   observation of a handled message:
   `tag=<t> pending=<tags|-> cursor=<c|-> frames=<c:tag:payload|k:payload,…|-> got=<port:data,…|->`
 
@@ -29,6 +31,8 @@ structure PSt where
   replied : List Nat := []
   /-- tags for which a `reply` op was issued -/
   resolved : List Nat := []
+  /-- wave 2: the tag counter of the field probe's proxy (`fcall`) -/
+  ftag : Nat := 0
 
 /-! ### E-LTS end to end (two real nodes)
 
@@ -613,6 +617,31 @@ def oraclePure (st : PSt) (op : List String) (impl : String) : PSt × List Strin
     ({ st1 with replied := st1.replied ++ got.map (·.1), resolved := resolved }, bad1 ++ bad2 ++ bad3 ++ bad4 ++ bad5)
   | _, _ => (st, ["unparsable"])
 
+/-- wave 2, `fcast <variant> <args> <meta|->` / `fcall <variant> <args> <meta|-> <timeout ms|->`:
+the node message the real `handle_serialized` handed to its session, field by field
+(`call=<0|1> to=<1 iff the proxy's own pid> tag=<t> what=<args> variant=<name> meta=<m|-> tmo=<ms|->`),
+against `Fields.proxyMsg`. ORACLE (the property: the same variant, arguments and metadata reach
+the original): what `Fields.deliver` would hand over from the implementation's frame must be what
+was sent, addressed to the reference's own pid. -/
+def fieldsStep (st : PSt) (isCall : Bool) (v args mta tmo impl : String) : Option (PSt × StepOut) :=
+  match args.toNat? with
+  | none => none
+  | some a =>
+    let md : Option Codec.Bytes := if mta == "-" then none else mta.toNat?.map (Codec.encodeBE 8)
+    let tm : Option Nat := if tmo == "-" then none else tmo.toNat?
+    let tag := st.ftag + 1
+    let m := Fields.proxyMsg 1 tag tm ⟨isCall, "V" ++ v, Codec.encodeBE 8 a, md⟩
+    let (to, got) := Fields.deliver m
+    let b := fun (x : Bool) => if x then "1" else "0"
+    let optB := fun (x : Option Codec.Bytes) => match x with | some y => toString (Codec.beVal y) | none => "-"
+    let optN := fun (x : Option Nat) => match x with | some y => toString y | none => "-"
+    let model := s!"call={b m.isCall} to={to} tag={m.tag} what={Codec.beVal got.args} variant={got.variant} meta={optB got.metadata} tmo={optN m.timeoutMs}"
+    let want := s!" what={a} variant=V{v} meta={mta} "
+    let bad := if (impl.splitOn want).length == 2 && impl.startsWith s!"call={b isCall} to=1 " then []
+      else ["field-changed-between-proxy-and-wire"]
+    some ({ st with ftag := if isCall then tag else st.ftag },
+          { model := model, oracle := bad, nontrivial := true, key := some s!"f {isCall} {v} {mta == "-"} {tmo == "-"}" })
+
 def stepPure (st : PSt) (w : List String) (impl : String) : Option (PSt × StepOut) :=
   let handle := fun (m : SerMsg) (nontrivial : Bool) =>
     let (px, outs) := st.px.handle (st.closed.contains ·) st.sessionUp m
@@ -633,6 +662,8 @@ def stepPure (st : PSt) (w : List String) (impl : String) : Option (PSt × StepO
     | _, _ => none
   | ["abandon", port] => port.toNat?.map fun q => ({ st with closed := q :: st.closed }, { model := "ok" })
   | ["killsession"] => some ({ st with sessionUp := false }, { model := "ok" })
+  | ["fcast", v, args, mta] => fieldsStep st false v args mta "-" impl
+  | ["fcall", v, args, mta, tmo] => fieldsStep st true v args mta tmo impl
   | _ => none
 
 def step (st : St) (op impl : String) : St × StepOut :=
